@@ -395,7 +395,7 @@ fn sem_operand(s: &mut Src, depth: usize) -> String {
                 "\"a\" | \"b\"", "1 | 2", "string | number", "string[]", "[string, number]", "[number, ...string[]]", "{ a: string }",
                 "{ a: string; b?: number }", "{ a: 1 } | { a: 2; b: string }", "Record<string, number>", "Record<\"a\" | \"b\", number>",
                 "{ [k: string]: boolean }", "T0", "T1", "StringFormat<\"lower\">", "`a${string}`", "Uint8Array", "Map<string, number>", "Set<string>",
-                "Array<{ a: T0 }>", "readonly [T0, T1]",
+                "Array<{ a: T0 }>", "readonly [T0, T1]", "`${\"\"}`", "`${\"\" | \"b\"}`",
                 // recursive named types of every container kind (declared by sem_file), incl. ones without finite values
                 "R0", "R1", "R2", "R4", "R5", "R6", "R7", "R0 | null", "R1 | string", "[R2, R1]",
                 // ... and ones whose own body mentions them inside an intersection, a utility type or a discriminated union
